@@ -188,7 +188,9 @@ func Marshal(data any, args ...any) (out []byte, err error) {
 		wr, _ = marshalPool.Get().(*Writer)
 		defer marshalPool.Put(wr)
 	} else {
+		strict := wr.strict
 		wr.strict = true
+		defer func() { wr.strict = strict }()
 	}
 	defer func() {
 		if r := recover(); r != nil {
